@@ -211,6 +211,9 @@ def mk_wcs(nx, ny, ra, dec, scale, rot, par):
     w.wcs.crpix = [(nx + 1) / 2.0, (ny + 1) / 2.0]
     c, s = math.cos(rot), math.sin(rot)
     w.wcs.cd = np.array([[-scale * c, par * scale * s], [scale * s, par * scale * c]])
+    if int(ra * 1000) % 2:
+        # as read from a FITS file: the WCS also records the image dimensions, in FITS axis order (NAXIS1, NAXIS2) = (nx, ny)
+        w.pixel_shape = (nx, ny)
     return w
 
 
@@ -370,7 +373,7 @@ def case_chunk(spec):
     universe = rq.all_positions(3, 1)
     for _ in range(spec["n"]):
         H = R.choice([16, 33, 64, 100])
-        W = R.choice([32, 65, 128, 200])
+        W = R.choice([32, 65, 128, 200, 48])
         cw, ch = R.randrange(3, W + 1), R.randrange(3, H + 1)
         fc = FakeChunked(np.zeros((H, W), np.float32), cw, ch)
         ck = samplers.ChunkedPlateCarreeSampler(fc, planetary=True)
@@ -438,7 +441,7 @@ def case_chunks_all(spec, workdir):
     from toasty.toast import ToastCoordinateSystem as CS
 
     R = random.Random(spec["seed"])
-    H, W = R.choice([(64, 128), (50, 100), (33, 67)])
+    H, W = R.choice([(64, 128), (50, 100), (33, 67), (24, 64), (40, 48), (60, 61)])
     cw, ch = R.randrange(W // 4, W), R.randrange(H // 4, H)
     idmap = (np.arange(H * W).reshape(H, W) + 1).astype(np.int32)
     fc = FakeChunked(idmap, cw, ch)
